@@ -7,7 +7,12 @@ import (
 
 // ---- C05: queues -------------------------------------------------------------------------------
 
-type queueRunner struct{ q *queue.Queue[int] }
+type queueRunner struct {
+	q *queue.Queue[int]
+	d decoySet
+}
+
+func (r *queueRunner) Decoys() *decoySet { return &r.d }
 
 func (r *queueRunner) Do(op []string) string {
 	switch op[0] {
@@ -30,7 +35,12 @@ func (r *queueRunner) Do(op []string) string {
 	panic("harness: bad op " + op[0])
 }
 
-type lqueueRunner struct{ q *queue.LQueue[int] }
+type lqueueRunner struct {
+	q *queue.LQueue[int]
+	d decoySet
+}
+
+func (r *lqueueRunner) Decoys() *decoySet { return &r.d }
 
 func (r *lqueueRunner) Do(op []string) string {
 	switch op[0] {
@@ -54,7 +64,12 @@ func (r *lqueueRunner) Do(op []string) string {
 
 // ---- C06: stacks -------------------------------------------------------------------------------
 
-type stackRunner struct{ s *stack.Stack[int] }
+type stackRunner struct {
+	s *stack.Stack[int]
+	d decoySet
+}
+
+func (r *stackRunner) Decoys() *decoySet { return &r.d }
 
 func (r *stackRunner) Do(op []string) string {
 	switch op[0] {
@@ -73,7 +88,12 @@ func (r *stackRunner) Do(op []string) string {
 	panic("harness: bad op " + op[0])
 }
 
-type lstackRunner struct{ s *stack.LStack[int] }
+type lstackRunner struct {
+	s *stack.LStack[int]
+	d decoySet
+}
+
+func (r *lstackRunner) Decoys() *decoySet { return &r.d }
 
 func (r *lstackRunner) Do(op []string) string {
 	switch op[0] {
@@ -93,10 +113,30 @@ func (r *lstackRunner) Do(op []string) string {
 }
 
 func init() {
-	kinds["queue"] = func(p []string) Runner { return &queueRunner{queue.New[int]()} }
-	kinds["lqueue"] = func(p []string) Runner { return &lqueueRunner{queue.NewLinked(atoi(p[0]))} }
-	kinds["stack"] = func(p []string) Runner { return &stackRunner{stack.New[int]()} }
-	kinds["lstack"] = func(p []string) Runner { return &lstackRunner{stack.NewLinked(atoi(p[0]))} }
+	kinds["queue"] = func(p []string) Runner {
+		return &queueRunner{q: queue.New[int](), d: decoySet{mk: func() decoy {
+			q := queue.New[int]()
+			return decoy{put: func(v int) { q.Enqueue(v) }, take: func() { q.Dequeue() }}
+		}}}
+	}
+	kinds["lqueue"] = func(p []string) Runner {
+		return &lqueueRunner{q: queue.NewLinked(atoi(p[0])), d: decoySet{mk: func() decoy {
+			q := queue.NewLinked(-901)
+			return decoy{put: func(v int) { q.Enqueue(v) }, take: func() { q.Dequeue() }}
+		}}}
+	}
+	kinds["stack"] = func(p []string) Runner {
+		return &stackRunner{s: stack.New[int](), d: decoySet{mk: func() decoy {
+			s := stack.New[int]()
+			return decoy{put: func(v int) { s.Push(v) }, take: func() { s.Pop() }}
+		}}}
+	}
+	kinds["lstack"] = func(p []string) Runner {
+		return &lstackRunner{s: stack.NewLinked(atoi(p[0])), d: decoySet{mk: func() decoy {
+			s := stack.NewLinked(-901)
+			return decoy{put: func(v int) { s.Push(v) }, take: func() { s.Pop() }}
+		}}}
+	}
 
 	gens["C05"] = genC05
 	gens["C06"] = genC06
@@ -189,6 +229,9 @@ func genC05(g *Gen) {
 		for j := 0; j < 12; j++ {
 			ops = append(ops, "dequeue", "size")
 		}
+		if i%3 == 0 { // other live queues are operated in between (after a dequeue or clear preferably)
+			ops = withDecoys(ops, r, func(op string) bool { return op == "dequeue" || op == "clear" })
+		}
 		g.Emit(kind, params, ops)
 	}
 }
@@ -270,6 +313,9 @@ func genC06(g *Gen) {
 		}
 		for j := 0; j < 12; j++ {
 			ops = append(ops, "pop", "size")
+		}
+		if i%3 == 0 { // other live stacks are operated in between (after a pop preferably)
+			ops = withDecoys(ops, r, func(op string) bool { return op == "pop" })
 		}
 		g.Emit(kind, params, ops)
 	}
